@@ -261,6 +261,67 @@ def s4_csv_liveness(F, r):
                 r.fail(inst, "CSV column is parsed but never used when the problem is built: imported problem does not carry the table's data", ad["span"])
 
 
+DROPPING_TYPES = ("adapters::filter::", "adapters::filter_map::", "adapters::skip::", "adapters::take::", "adapters::skip_while::", "adapters::take_while::",
+                  "adapters::step_by::", "adapters::map_while::")
+CONSUMERS = ("try_for_each", "try_fold", "for_each", "fold", "map", "flat_map", "collect")
+
+
+def i1_reader_visits_everything(F, r):
+    """re-reading a solution: every tour, every stop of a tour and every activity of a stop is visited (no skip / take / filter on these walks)"""
+    root = "vrp_pragmatic::format::solution::initial_reader::read_init_solution"
+    if root not in F.fns:
+        raise AnchorError(root)
+    seen = {}
+    for g in F.family(root):
+        fn = F.fns[g]
+        for bi, t in mir.calls(fn):
+            last = t["callee"].split("::")[-1]
+            if last not in CONSUMERS or not t["callee"].startswith("core::iter::traits::iterator::Iterator::") or not t["ga"]:
+                continue
+            ty = t["ga"][0]
+            for what in ("Tour", "Stop", "Activity"):
+                if f"solution::model::{what}>" in ty or f"solution::model::{what}," in ty:
+                    bad = [d.split("::")[1] for d in DROPPING_TYPES if d in ty]
+                    key = f"read_init_solution: walk over {what.lower()}s"
+                    if bad:
+                        r.fail(key, f"the walk over the {what.lower()}s of the document drops elements ({', '.join(bad)}): activities that the writer put there (e.g. a job served at the "
+                               "depot inside the departure stop) silently vanish from the re-read solution", F.loc(g, t["ln"]))
+                        seen[what] = "bad"
+                    elif seen.get(what) != "bad":
+                        seen[what] = "ok"
+    for what in ("Tour", "Stop", "Activity"):
+        if what not in seen:
+            r.fail(f"read_init_solution: walk over {what.lower()}s", f"no walk over the {what.lower()}s of the solution document was found", F.loc(root))
+        elif seen[what] == "ok":
+            r.ok(f"read_init_solution: walk over {what.lower()}s", "complete (no element-dropping adapter)")
+
+
+ADJACENT_GROUPING = ("chunk_by", "chunk_by_mut", "group_by", "dedup", "dedup_by", "dedup_by_key", "chunks", "windows")
+
+
+def i2_csv_grouping(F, r):
+    """CSV import: the rows of one job are collected by id, wherever they stand in the table (no adjacency-based grouping)"""
+    n = 0
+    keyed = 0
+    for fid, fn in sorted(F.fns.items()):
+        if "::promoted[" in fid or not F.fns.get(F.root_of(fid), fn)["module"].startswith("vrp_cli::extensions::import"):
+            continue
+        for bi, t in mir.calls(fn):
+            n += 1
+            last = t["callee"].split("::")[-1]
+            if last in ADJACENT_GROUPING and ("slice" in t["callee"] or "Vec" in t["callee"] or "itertools" in t["callee"].lower()):
+                r.fail(f"{util.short_fn(F.root_of(fid))}: {last}", f"`{last}` groups only ADJACENT rows: a job whose rows are not contiguous in the table is imported as several jobs with the same id "
+                       "(the problem no longer carries the tables' data)", F.loc(fid, t["ln"]))
+            if last == "entry" and "HashMap" in t["callee"] or last == "entry" and "BTreeMap" in t["callee"]:
+                keyed += 1
+    if n < 50:
+        raise AnchorError(f"only {n} calls found in the CSV import module")
+    if keyed:
+        r.ok("csv import: grouping", f"rows are grouped through a keyed map ({keyed} entry() site(s)); no adjacency-based grouping")
+    else:
+        r.ok("csv import: grouping", "no adjacency-based grouping")
+
+
 def run(ctx):
     ctx.explanation = (
         "serde symmetry of the pragmatic document models (syn AST scan joined with type facts): every document type derives both Serialize and Deserialize, "
@@ -271,4 +332,6 @@ def run(ctx):
     ctx.assumptions += ["serde derive semantics for the listed attributes (trusted)", "types outside the three model files serialise opaquely (kind `any`)"]
     ctx.run("C11-S1", "document types: both derives, no one-sided attributes, symmetric renames, skip only for None options", s1_symmetry, floor=90)
     ctx.run("C11-S2", "untagged variants distinguishable on re-reading; tagged variants unique", s2_untagged, floor=8)
+    ctx.run("C11-I1", "initial-solution reader visits every tour / stop / activity of the document", i1_reader_visits_everything, floor=3)
+    ctx.run("C11-I2", "CSV import groups rows by id, not by adjacency", i2_csv_grouping, floor=1)
     ctx.run("C11-S4", "CSV import records: every column consumed", s4_csv_liveness, floor=10)
